@@ -39,6 +39,25 @@ CLAIMS = {
         "the model; the sign convention (flip vs difference function) is checked by the exact-arithmetic search, not yet "
         "by a theorem.",
    technique="Lean 4 proof on translator-generated definitions (omega/simp) + Lagrange-coefficient lemma; exact-rational correspondence"),
+ 'C15': dict(
+   text="Lean 4 proof that Fornberg's recursion (model mirroring _fd_weights_all: running c1/c4, old-value reads, the j<=min(i,n) "
+        "window, the j-1 wrap-around multiplied by j=0) keeps the invariant 'W[v][j] is the j-th derivative at x0 of the "
+        "Lagrange basis polynomial of node v' (Mathlib Lagrange.basis, Leibniz for a linear factor), transferred to the "
+        "table-level run the driver executes; consequently fdWeightsAll_exact: for pairwise distinct nodes in any order, any x0, "
+        "n<len(x), row k applied to samples of any polynomial of degree <len(x) gives its exact k-th derivative; row 0 "
+        "interpolates, rows k>=1 sum to 0, fd_weights is row n, the guard raises iff n>=len(x). Tie: the real kernel run on "
+        "Fractions = Rat model exactly; public float API = Float model bit for bit. Partial: rounding (explored against exact "
+        "rational weights with a conditioning-scaled bound).",
+   technique="Lean 4 proof by loop invariant over Mathlib polynomials + exact (Fraction) and bit-exact (Float) correspondence"),
+ 'C16': dict(
+   text="Lean 4 proof of fdDerivative_exact: on pairwise distinct nodes, len >= 2mm+2, m>=1 and samples of a polynomial of degree "
+        "<= 2mm, the model of fd_derivative (program-order list of stores with Python's slice clamping and negative indices; "
+        "last store wins) returns the exact n-th derivative at every grid point, interior and both boundaries, with output "
+        "length = input length; fdStores_left/right/interior/cover prove which window and expansion node each output uses; "
+        "fd_order_guard shows the inner guard cannot fire. Built on C15's theorem per window. Tie: the sequence of (window, node, "
+        "n) passed to fd_weights is compared exactly with the model's stores; values on dyadic grids with a rounding bound. "
+        "Partial: rounding / np.dot are not modelled.",
+   technique="Lean 4 proof (index bookkeeping by omega + C15 per window) + exact correspondence of the store sequence"),
 }
 
 checks = []
